@@ -46,6 +46,15 @@ def gen(rng, size='small'):
         assets = list(range(0, n_assets))      # ids are arbitrary integers: 0 is a legal asset id (only None is a no-op)
     # some scenarios live far from the origin (2**28 time units, exact on the 1/8 grid): nothing may depend on the magnitude of the clock
     base = 0 if rng.random() < 0.85 else (1 << 31)
+    # one scenario in six schedules some of its events under asset id -1, the id the library itself uses for the events of the resource
+    # manager and for the marker of run(): user events may carry it too (they are never paused or cancelled by id in these scenarios,
+    # which would hit the marker as well)
+    minus_one = rng.random() < 0.17
+
+    def sched_asset():
+        if minus_one and rng.random() < 0.4:
+            return -1
+        return rng.choice(assets)
     n_acts = rng.randint(2, 7)
     mod = rng.choice([1, 2, 3, 3, 5, 1 << 20, 1 << 20])
     fractional = rng.random() < 0.5
@@ -71,10 +80,10 @@ def gen(rng, size='small'):
                     dt = rng.choice([4, 8, 12])
                 if sum(1 for c in cmds if c[0] in ('rel', 'abs')) >= 2:
                     continue
-                cmds.append(('rel', dt, prio(), rng.choice(assets), act))
+                cmds.append(('rel', dt, prio(), sched_asset(), act))
             elif r < 0.60:
                 act = rng.randrange(n_acts)
-                cmds.append(('abs', base + rng.randint(0, 80), prio(), rng.choice(assets), act))
+                cmds.append(('abs', base + rng.randint(0, 80), prio(), sched_asset(), act))
             elif r < 0.75:
                 cmds.append(('pause', rng.choice(assets)))
             elif r < 0.90:
@@ -101,7 +110,7 @@ def gen(rng, size='small'):
             t = est + dts()
             if rng.random() < 0.05:
                 t = max(0, est - rng.choice([1, 1, 2, 3, 5, 10]))     # malformed: possibly in the past
-            ops.append(('sched', t, prio(), rng.choice(assets), rng.randrange(n_acts)))
+            ops.append(('sched', t, prio(), sched_asset(), rng.randrange(n_acts)))
         elif r < cut[1]:
             ops.append(('pause', rng.choice(assets)))
         elif r < cut[2]:
